@@ -1,5 +1,7 @@
 package world
 
+import "reflect"
+
 // Provider types outside the palette: an interface with unexported methods, implemented by a type
 // with very few exported methods ("lean") and by one with many ("rich"). reflect counts unexported
 // methods for interface types but not for concrete types, which is a classic trap for hand-rolled
@@ -53,3 +55,13 @@ func (l *RichH) Mark()          {}
 type Pair[K comparable, V any] struct{ Tag string }
 
 func (*Pair[K, V]) A() {}
+
+// Defined pointer types: a field of such a type can only be wired by name (by-type resolution compares
+// types for identity); the named component's pointer is assignable to it.
+type RefT00 *T00
+type RefT03 *T03
+
+var (
+	TypeRefT00 = reflect.TypeOf(RefT00(nil))
+	TypeRefT03 = reflect.TypeOf(RefT03(nil))
+)
